@@ -2,8 +2,22 @@
 
 package analysis
 
+import (
+	"go/types"
+
+	"golang.org/x/tools/go/packages"
+)
+
 // Hooks for the verification harness in /verif (build tag "verif").
 // They only expose unexported pure functions; nothing is rewritten.
 
 // VerifCommonPrefix exposes commonPrefix.
 func VerifCommonPrefix(paths []string) string { return commonPrefix(paths) }
+
+// VerifEnumsAndUnions exposes fetchEnumsAndUnions.
+func VerifEnumsAndUnions(pa *packages.Package) (map[*types.Named]*Enum, map[*types.Named][]*types.Named) {
+	return fetchEnumsAndUnions(pa)
+}
+
+// VerifIsSpecialComment exposes isSpecialComment.
+func VerifIsSpecialComment(comment string) (CommentKind, string) { return isSpecialComment(comment) }
